@@ -200,6 +200,27 @@ def gen_malformed(rng: random.Random):
     return c
 
 
+def gen_offgrid(rng: random.Random):
+    """delay-aware trainers on small dense cells whose delays lie between two steps (interpolated views), mostly in the
+    `delayed` mode; compared with the model only (the oracle does not judge delays off the grid)"""
+    tr = rng.choice(["STDP", "StableSTDP", "TripletSTDP", "TripletSTDP", "StableTripletSTDP", "MSTDP"])
+    sp, sq = rng.choice(SIGNS)
+    n_in, n_out, B, T = rng.randint(1, 2), rng.randint(1, 2), rng.randint(1, 2), rng.randint(3, 8)
+    kmax = rng.randint(1, 3)
+    case = {"trainer": tr, "mode": rng.choice(MODES), "hp": default_hp(sp, sq, rng), "dt": rng.choice([1.0, 0.5, 1.3]),
+            "conn": "dense", "n_in": n_in, "n_out": n_out, "B": B, "kmax": kmax,
+            "delays": [[rng.randint(1, kmax) - rng.choice([0.5, 0.25, 0.75, 0.125]) for _ in range(n_in)] for _ in range(n_out)],
+            "delayed": rng.random() < 0.8, "reduction": rng.choice([None, "sum", "mean"])}
+    p = rng.choice([0.4, 0.7])
+    case["pre"] = [[[int(rng.random() < p) for _ in range(n_in)] for _ in range(B)] for _ in range(T)]
+    case["post"] = [[[int(rng.random() < p) for _ in range(n_out)] for _ in range(B)] for _ in range(T)]
+    case["signal"] = mk_signal(rng, case, T, B)
+    case["scale"] = 1.0
+    if case["signal"] is not None and isinstance(case["signal"][0], list):
+        case["reduction"] = rng.choice([None, "sum"])
+    return case
+
+
 def gen_conv(rng: random.Random):
     """a small convolutional cell (weights shared over the output positions); linear batch reductions only, because the
     per-synapse model terms are added up over the positions before the comparison"""
@@ -531,6 +552,7 @@ def run(ctx):
     cases += [gen_random(rng) for _ in range(260 if quick else 4000)]
     cases += [gen_conv(rng) for _ in range(24 if quick else 400)]
     cases += [gen_malformed(rng) for _ in range(30 if quick else 300)]
+    cases += [gen_offgrid(rng) for _ in range(60 if quick else 600)]
     ex_len = 2 if quick else 5
     ex = exhaustive_1x1(ex_len)
     if quick:
